@@ -271,6 +271,9 @@ def execute(case: dict[str, Any]) -> dict[str, Any]:
                         cmd = run.engine.tracking.get_command(item[0])
                         record = run.engine.tracking.get_record_by_instance_id(item[0])
                         rec["invocations"] = 0 if record is None else len({st.instance_id for st in record.states})
+                        # the node's flags no longer belong to this item (a re-arm / macro call reset the node)
+                        rec["node_reset"] = node is not None and (bool(node.cancelled) != item[5] or
+                                                                  bool(node.forced) != item[6])
                         rec.update(item=item, node_cls=type(node).__name__ if node is not None else None,
                                    has_cmd=cmd is not None,
                                    cmd_serial=next((i for i, c in enumerate(run._cmds) if c is cmd), None),
@@ -442,7 +445,7 @@ def oracle_c12(case: dict[str, Any], res: dict[str, Any]) -> list[tuple[str, str
         if not offered:
             if r["result"] == "ok":
                 # a node that runs several times (Alarm body) has one set of node flags but one item per invocation
-                rep = ":repeated-node" if r.get("invocations", 1) > 1 else ""
+                rep = ":repeated-node" if r.get("invocations", 1) > 1 or r.get("node_reset") else ""
                 out.append((f"unoffered-{op}-accepted:{site}{rep}", what + " was accepted"))
             elif not same:
                 out.append((f"rejected-{op}-changed-state:{site}", what))
